@@ -198,6 +198,8 @@ inductive Op where
   | resign                              -- the leader record disappears
   | dropKey                             -- the leader record disappears although its owner still believes in its lease
   | getTS (m : Nat) (count : Nat)
+  | tryTS (m : Nat) (count : Nat)                      -- one iteration of getTS's retry loop (between two of them
+                                                       -- the caller sleeps and anything else may happen)
   | update (m : Nat) (now : Nat) (f : Fault)           -- whole UpdateTSO
   | gupdate (m : Nat) (now : Nat)                      -- UpdateTSO parked before its transaction
   | sync (m : Nat) (now : Nat) (f : Fault)             -- whole Initialize / SyncTimestamp
@@ -218,6 +220,7 @@ def step (s : St) : Op → St × Out
   | .resign => ({ s with leader := 0, mems := fun i => { s.mems i with lease := false } }, .ok)
   | .dropKey => ({ s with leader := 0 }, .ok)
   | .getTS m count => getTS s m count
+  | .tryTS m count => if count = 0 then (s, .bad) else getTSLoop s m count 1
   | .update m now f =>
     let x := s.mems m
     -- the updater daemon skips allocators without leadership or uninitialised
